@@ -97,11 +97,13 @@ inductive Instr where
   | commitLlgr (k : Nat)            -- mark_llgr_stale: Table::restale_llgr (+ drop_no_llgr)
   | commitLpurge (k : Nat)          -- drop_llgr_stale_families: Table::drop_llgr_stale
   | setEst (b : Bool)               -- PeerState.session_addrs.store(Some / None)
+  | regShard (k : Nat)              -- register_peer: peer_event_tx / addpath entry of shard k
+  | captureE0                       -- a consumer task reads the established peers from the peer table
   | sendUp                          -- peer_up: load subscribers; send
   | sendDown                        -- peer_down after a non-retaining teardown
   | sendDownGr                      -- peer_down after a GR-retaining teardown
   | setPol (p : Pol)                -- import_policy.store
-  | register (want bmp : Bool)      -- subscribe: new id, channel, rcu
+  | register (want : Bool) (kind : Nat) -- subscribe: new id, channel, rcu (kind: see `SubRec`)
   | snap (k : Nat)                  -- subscribe: walk shard k under its lock
   | sentinel                        -- subscribe: EndOfSnapshot (bmp: serve then reads the peer table)
   | unsubscribe
@@ -123,6 +125,8 @@ inductive Op where
   | lpurge                -- drop_llgr_stale_families
   | sub (want : Bool)
   | bmp                   -- a BMP client connection: the real `BmpClient::serve`
+  | mrt                   -- an MRT updates dump: the real `MrtDumper::serve`
+  | watch (init post : Bool) -- a gRPC WatchEvent stream (peer events + Adj-RIB-In pre- or post-policy)
   | unsub
   deriving DecidableEq, Repr, Inhabited
 
@@ -138,7 +142,9 @@ def bulk (n : Nat) (body : Nat → Instr) : List Instr :=
 
 /-- The Rust functions as sequences of atomic steps (program order of table_manager.rs). -/
 def compile (n me : Nat) : Op → List Instr
-  | .up => [.yld .op, .setEst true, .yld .notify, .sendUp, .ret]
+  | .up =>
+      -- apply_outputs(Established): session_addrs := Some; on_established: register_peer, peer_up
+      [.yld .op, .setEst true] ++ perShard n (fun k => lockSec k [.regShard k]) ++ [.yld .notify, .sendUp, .ret]
   | .down =>
       -- apply_outputs(SessionDown): session_addrs := None; finish_session: unregister_peer(addr,
       -- drop_families, []) ; peer_down(..)
@@ -160,24 +166,31 @@ def compile (n me : Nat) : Op → List Instr
   | .llgr => [.yld .op] ++ bulk n .commitLlgr ++ [.ret]
   | .lpurge => [.yld .op] ++ bulk n .commitLpurge ++ [.ret]
   | .sub want =>
-      [.yld .op, .register want false, .yld .registered]
+      [.yld .op, .register want 0, .yld .registered]
       ++ (if want then perShard n (fun k => lockSec k [.snap k]) ++ [.sentinel] else [])
       ++ [.ret]
   | .bmp =>
-      [.yld .op, .register true true, .yld .registered]
-      ++ perShard n (fun k => lockSec k [.snap k]) ++ [.sentinel, .ret]
+      [.yld .op, .register true 1, .yld .registered]
+      ++ perShard n (fun k => lockSec k [.snap k]) ++ [.sentinel, .captureE0, .ret]
+  | .mrt => [.yld .op, .register false 2, .yld .registered, .ret]
+  | .watch init post =>
+      [.yld .op, .register init (if post then 4 else 3), .yld .registered]
+      ++ (if init then perShard n (fun k => lockSec k [.snap k]) ++ [.sentinel] else [])
+      ++ [.captureE0, .ret]
   | .unsub => [.yld .op, .unsubscribe, .ret]
 
 def compileAll (n me : Nat) (ops : List Op) : List Instr := ops.flatMap (compile n me)
 
 /-- A subscription created by a thread: id, snapshot wanted, still subscribed (not `unsub`-ed),
-    made by a BMP client (`bmp`), and for those the established peers `serve` found in the
-    global peer table right after EndOfSnapshot. -/
+    the kind of consumer, and for the consumers that read the global peer table the established
+    peers they found there. -/
 structure SubRec where
   sid : Nat
   want : Bool
   live : Bool
-  bmp : Bool
+  /-- 0 = channel subscription, 1 = BMP connection, 2 = MRT dump, 3 = watch (pre-policy),
+      4 = watch (post-policy) -/
+  kind : Nat
   e0 : List Nat
   deriving DecidableEq, Repr, Inhabited
 
@@ -197,6 +210,8 @@ structure Thread where
   count : Nat := 0
   /-- the session's `Source` (a new Arc per session) -/
   gen : Nat := 0
+  /-- the peer negotiates ADD-PATH (registered with `register_peer` at every session start) -/
+  ap : Bool := false
   /-- ghost: shards already dropped by the teardown in progress -/
   drop : Option (List Nat) := none
   /-- ghost: subscription being snapshotted and the shards already walked -/
@@ -224,6 +239,10 @@ structure St where
   /-- (peer, session) pairs whose `Source` is marked stale / LLGR-stale -/
   staleGens : List (Nat × Nat)
   llgrGens : List (Nat × Nat)
+  /-- `TableShard.addpath`: (shard, peer) pairs registered with ADD-PATH -/
+  addpath : List (Nat × Nat)
+  /-- the `addpath` flag of every route event of each channel, in order -/
+  apq : Nat → List Bool
   threads : Nat → Thread
   /-- ghost: shards whose snapshot has been queued, per subscription -/
   done : Nat → List Nat
@@ -240,6 +259,13 @@ def updRib (f : Key → Option Entry) (k : Key) (v : Option Entry) : Key → Opt
 /-- `for (_, tx) in subs { tx.send(..) }` for each event in order. -/
 def send (q : Nat → List Ev) (subs : List Nat) (evs : List Ev) : Nat → List Ev :=
   fun s => if s ∈ subs then q s ++ evs else q s
+
+/-- the `addpath` flags that go with a batch of route events -/
+def sendAp (a : Nat → List Bool) (subs : List Nat) (flags : List Bool) : Nat → List Bool :=
+  fun s => if s ∈ subs then a s ++ flags else a s
+
+/-- `TableShard::has_addpath` -/
+def hasAp (st : List (Nat × Nat)) (k p : Nat) : Bool := decide ((k, p) ∈ st)
 
 /-- Nobody but `me` holds the lock of shard `k`. -/
 def lockFree (st : St) (k me : Nat) : Bool :=
@@ -290,7 +316,7 @@ def markDead : List SubRec → Option (Nat × List SubRec)
   | r :: rest =>
       match markDead rest with
       | some (s, rest') => some (s, r :: rest')
-      | none => if r.live && !r.bmp then some (r.sid, { r with live := false } :: rest) else none
+      | none => if r.live && r.kind == 0 then some (r.sid, { r with live := false } :: rest) else none
 
 /-- the generations of `p`'s entries present in shard `k` (the `Source`s `restale` marks) -/
 def gensIn (st : St) (p k : Nat) : List (Nat × Nat) :=
@@ -341,15 +367,17 @@ def step (me : Nat) (st : St) : Option St :=
             rib := updRib st.rib key (some ⟨v, post, t.gen⟩)
             keys := addKey st.keys key
             queues := send st.queues t.subs [.pre key (some v), .post key post]
+            apq := sendAp st.apq t.subs [hasAp st.addpath key.shard key.peer, hasAp st.addpath key.shard key.peer]
             threads := updT st.threads me { t with count := count, rets := t.rets ++ [.ok] } }
     | .commitRem key =>
         let queues := send st.queues t.subs [.pre key none, .post key none]
+        let apq := sendAp st.apq t.subs [hasAp st.addpath key.shard key.peer, hasAp st.addpath key.shard key.peer]
         if (st.rib key).isSome then
           let rib := updRib st.rib key none
           let count := if !(peerHasPath rib st.keys key) && st.limit != 0 then decU64 t.count else t.count
-          some { st with rib := rib, queues := queues, threads := updT st.threads me { t with count := count } }
+          some { st with rib := rib, queues := queues, apq := apq, threads := updT st.threads me { t with count := count } }
         else
-          some { st with queues := queues, threads := updT st.threads me t }
+          some { st with queues := queues, apq := apq, threads := updT st.threads me t }
     | .commitSr k p =>
         let ks := freshKeysIn st p k
         let evs := ks.map fun key => Ev.post key ((st.rib key).bind fun e => applyImport t.pol e.pre)
@@ -357,15 +385,19 @@ def step (me : Nat) (st : St) : Option St :=
           if key.peer = p ∧ key.shard = k then
             (st.rib key).map fun e => if isStale st p e then e else { e with post := applyImport t.pol e.pre }
           else st.rib key
-        some { st with rib := rib, queues := send st.queues t.subs evs, threads := updT st.threads me t }
+        some { st with rib := rib, queues := send st.queues t.subs evs
+                       apq := sendAp st.apq t.subs (ks.map fun _ => hasAp st.addpath k p)
+                       threads := updT st.threads me t }
     | .commitDrop k =>
         let rib : Key → Option Entry := fun key => if key.peer = me ∧ key.shard = k then none else st.rib key
-        some { st with rib := rib, threads := updT st.threads me { t with drop := some (k :: t.drop.getD []) } }
+        some { st with rib := rib, addpath := st.addpath.filter (· != (k, me))
+                       threads := updT st.threads me { t with drop := some (k :: t.drop.getD []) } }
     | .commitDropQuiet k =>
         let rib : Key → Option Entry := fun key => if key.peer = me ∧ key.shard = k then none else st.rib key
         some { st with rib := rib, threads := updT st.threads me t }
     | .commitStale k =>
-        some { st with staleGens := st.staleGens ++ gensIn st me k, threads := updT st.threads me t }
+        some { st with staleGens := st.staleGens ++ gensIn st me k, addpath := st.addpath.filter (· != (k, me))
+                       threads := updT st.threads me t }
     | .commitPurge k =>
         let rib : Key → Option Entry := fun key =>
           if key.peer = me ∧ key.shard = k then (st.rib key).bind fun e => if isStale st me e then none else some e
@@ -378,6 +410,12 @@ def step (me : Nat) (st : St) : Option St :=
           if key.peer = me ∧ key.shard = k then (st.rib key).bind fun e => if isLlgr st me e then none else some e
           else st.rib key
         some { st with rib := rib, threads := updT st.threads me t }
+    | .regShard k =>
+        let ap := st.addpath.filter (· != (k, me))
+        some { st with addpath := if t.ap then ap ++ [(k, me)] else ap, threads := updT st.threads me t }
+    | .captureE0 =>
+        let ms := setLast t.mysubs fun r => { r with e0 := st.established }
+        some { st with threads := updT st.threads me { t with mysubs := ms } }
     | .setEst b =>
         let est := st.established.filter (· != me)
         some { st with established := if b then est ++ [me] else est, threads := updT st.threads me t }
@@ -390,18 +428,22 @@ def step (me : Nat) (st : St) : Option St :=
         some { st with queues := send st.queues st.subscribers [.down me]
                        threads := updT st.threads me { t with count := 0, gen := t.gen + 1 } }
     | .setPol p => some { st with policy := p, threads := updT st.threads me t }
-    | .register want bmp =>
+    | .register want kind =>
         let s := st.nextSub
         some { st with
           subscribers := st.subscribers ++ [s]
           nextSub := s + 1
           threads := updT st.threads me
-            { t with mysubs := t.mysubs ++ [⟨s, want, true, bmp, []⟩], snapping := if want then some (s, []) else none } }
+            { t with mysubs := t.mysubs ++ [⟨s, want, true, kind, []⟩], snapping := if want then some (s, []) else none } }
     | .snap k =>
         match t.snapping with
         | some (s, l) =>
             some { st with
               queues := send st.queues [s] (snapEvents st k)
+              apq := sendAp st.apq [s] ((snapEvents st k).map fun e => match e with
+                | .pre key _ => hasAp st.addpath k key.peer
+                | .post key _ => hasAp st.addpath k key.peer
+                | _ => false)
               done := fun s' => if s' = s then k :: st.done s' else st.done s'
               threads := updT st.threads me { t with snapping := some (s, k :: l) } }
         | none => some { st with threads := updT st.threads me t }
@@ -411,8 +453,7 @@ def step (me : Nat) (st : St) : Option St :=
             some { st with
               queues := send st.queues [s] [.eos]
               complete := s :: st.complete
-              threads := updT st.threads me
-                { t with snapping := none, mysubs := setLast t.mysubs fun r => { r with e0 := st.established } } }
+              threads := updT st.threads me { t with snapping := none } }
         | none => some { st with threads := updT st.threads me t }
     | .unsubscribe =>
         match markDead t.mysubs with
@@ -432,18 +473,20 @@ structure Case where
   /-- (is a writer, operations) -/
   threads : List (Bool × List Op)
   sched : List Nat
+  /-- indices of the writer threads whose peer negotiates ADD-PATH -/
+  addpath : List Nat := []
   deriving Repr, Inhabited
 
-def initThreads (n : Nat) (ths : List (Bool × List Op)) : Nat → Thread :=
+def initThreads (n : Nat) (ths : List (Bool × List Op)) (aps : List Nat) : Nat → Thread :=
   fun i => match ths[i]? with
-    | some (_, ops) => { pgm := compileAll n i ops }
+    | some (_, ops) => { pgm := compileAll n i ops, ap := decide (i ∈ aps) }
     | none => {}
 
 def init (c : Case) : St :=
   { n := c.n, limit := c.limit, nthreads := c.threads.length
     rib := fun _ => none, keys := [], subscribers := [], queues := fun _ => [], nextSub := 0
-    policy := .none, established := [], staleGens := [], llgrGens := []
-    threads := initThreads c.n c.threads, done := fun _ => [], complete := [] }
+    policy := .none, established := [], staleGens := [], llgrGens := [], addpath := [], apq := fun _ => []
+    threads := initThreads c.n c.threads c.addpath, done := fun _ => [], complete := [] }
 
 /-- Is the scheduling point an actual yield?  (Same rule in harness/daemon/c18.rs `Sched::point`.)
     Coarse granularity 0: an operation is atomic up to its second lock acquisition. -/
@@ -574,13 +617,16 @@ def ctlOf : List Ev → List Ev
 
 /-- What `BmpClient::serve` writes on its connection about (map `post?`, `key`): the flushed
     snapshot entry if the key's peer was established at EndOfSnapshot, then every live route
-    event of the key, and a PeerDown of the key's peer whenever `send_peer_down` lets it out. -/
+    event of the key whose peer has been announced on the connection (repaired: S28e), and a
+    PeerDown of the key's peer whenever `send_peer_down` lets it out. -/
 def wireLive (post : Bool) (key : Key) : List Ev → List Nat → List Item
   | [], _ => []
   | .pre k v :: r, sent =>
-      if !post && k = key then itemOf v :: wireLive post key r sent else wireLive post key r sent
+      if !post && k = key && decide (k.peer ∈ sent) then itemOf v :: wireLive post key r sent
+      else wireLive post key r sent
   | .post k v :: r, sent =>
-      if post && k = key then itemOf v :: wireLive post key r sent else wireLive post key r sent
+      if post && k = key && decide (k.peer ∈ sent) then itemOf v :: wireLive post key r sent
+      else wireLive post key r sent
   | .up p :: r, sent => wireLive post key r (trackPeerUp sent p)
   | .down p :: r, sent =>
       let (f, sent') := trackPeerDown sent p
@@ -597,18 +643,65 @@ def wireCtl (p : Nat) (q : List Ev) (e0 : List Nat) : List Ev :=
   (if p ∈ e0 then [Ev.up p] else []) ++
     (forward (afterEos q) e0).filter fun e => e = .up p || e = .down p
 
+/-- `MrtDumper::run_loop`: one BGP4MP record per pre-policy Adj-RIB-In event; nothing else. -/
+def mrtHist (key : Key) : List Ev → List Item
+  | [] => []
+  | .pre k v :: r => if k = key then itemOf v :: mrtHist key r else mrtHist key r
+  | _ :: r => mrtHist key r
+
+/-- The gRPC `watch_event` stream about (requested map, `key`): every route event of the
+    requested map whose peer has been announced on the stream (snapshot and live alike: they are
+    forwarded as they are read), and a peer state-down whenever it is let out (repaired: only for
+    peers announced on the stream). -/
+def watchHist (post : Bool) (key : Key) : List Ev → List Nat → List Item
+  | [], _ => []
+  | .pre k v :: r, sent =>
+      if !post && k = key && decide (k.peer ∈ sent) then itemOf v :: watchHist post key r sent
+      else watchHist post key r sent
+  | .post k v :: r, sent =>
+      if post && k = key && decide (k.peer ∈ sent) then itemOf v :: watchHist post key r sent
+      else watchHist post key r sent
+  | .up p :: r, sent => watchHist post key r (trackPeerUp sent p)
+  | .down p :: r, sent =>
+      let (f, sent') := trackPeerDown sent p
+      if f && p = key.peer then .dn :: watchHist post key r sent' else watchHist post key r sent'
+  | .eos :: r, sent => watchHist post key r sent
+
+/-- the peer events about `p` on a watch stream: TYPE_INIT for the peers established when the
+    stream started, then the state changes let out -/
+def watchCtl (p : Nat) (q : List Ev) (e0 : List Nat) : List Ev :=
+  (if p ∈ e0 then [Ev.up p] else []) ++ (forward q e0).filter fun e => e = .up p || e = .down p
+
+/-- pair every route event of a queue with its `addpath` flag -/
+def zipAp : List Ev → List Bool → List (Ev × Bool)
+  | [], _ => []
+  | .pre k v :: r, f :: fs => (.pre k v, f) :: zipAp r fs
+  | .post k v :: r, f :: fs => (.post k v, f) :: zipAp r fs
+  | .pre k v :: r, [] => (.pre k v, false) :: zipAp r []
+  | .post k v :: r, [] => (.post k v, false) :: zipAp r []
+  | e :: r, fs => (e, false) :: zipAp r fs
+
+/-- the addpath flags of the route events of (map, key), in order -/
+def apsOf (post : Bool) (key : Key) (l : List (Ev × Bool)) : List Bool :=
+  l.filterMap fun (e, f) => match e with
+    | .pre k _ => if !post && k = key then some f else none
+    | .post k _ => if post && k = key then some f else none
+    | _ => none
+
 structure SubObs where
   tid : Nat
   nth : Nat
   want : Bool
   live : Bool
-  bmp : Bool
+  /-- 0 channel, 1 BMP connection, 2 MRT dump, 3 watch pre-policy, 4 watch post-policy -/
+  kind : Nat
   ctl : List Ev
   hist : List (List Item × List Item)     -- per universe key
   snap : List (Option Nat × Option Nat)   -- per universe key: the consumer's snapshot maps
   fwd : List Ev
-  whist : List (List Item × List Item)    -- bmp: per universe key, what was written on the wire
-  wctl : List (List Ev)                   -- bmp: per thread index (peer)
+  whist : List (List Item × List Item)    -- consumers: per universe key, what was written out
+  wctl : List (List Ev)                   -- consumers: peer events per thread index (peer)
+  aps : List (List Bool × List Bool)      -- channel / MRT: addpath flag of every route event, per key
   deriving DecidableEq, Repr, Inhabited
 
 structure Obs where
@@ -640,19 +733,35 @@ def keyUniverse (c : Case) : List Key :=
 
 def subObs (st : St) (u : List Key) (tid nth : Nat) (r : SubRec) : SubObs :=
   let q := st.queues r.sid
-  if r.bmp then
-    { tid := tid, nth := nth, want := true, live := true, bmp := true
-      ctl := [], hist := [], snap := [], fwd := []
-      whist := u.map fun key => (wireHist false key q r.e0, wireHist true key q r.e0)
-      wctl := (List.range st.nthreads).map fun p => wireCtl p q r.e0 }
-  else
+  let z := zipAp q (st.apq r.sid)
+  let peers := List.range st.nthreads
+  match r.kind with
+  | 0 =>
     let (sp, spost) := if r.want then drainSnapshot q ([], []) else ([], [])
-    { tid := tid, nth := nth, want := r.want, live := decide (r.sid ∈ st.subscribers), bmp := false
+    { tid := tid, nth := nth, want := r.want, live := decide (r.sid ∈ st.subscribers), kind := 0
       ctl := ctlOf q
       hist := u.map fun key => (histPre key q, histPost key q)
       snap := u.map fun key => (sp.get key, spost.get key)
       fwd := forward (if r.want then afterEos q else q) []
-      whist := [], wctl := [] }
+      whist := [], wctl := []
+      aps := u.map fun key => (apsOf false key z, apsOf true key z) }
+  | 1 =>
+    { tid := tid, nth := nth, want := true, live := true, kind := 1
+      ctl := [], hist := [], snap := [], fwd := [], aps := []
+      whist := u.map fun key => (wireHist false key q r.e0, wireHist true key q r.e0)
+      wctl := peers.map fun p => wireCtl p q r.e0 }
+  | 2 =>
+    { tid := tid, nth := nth, want := false, live := true, kind := 2
+      ctl := [], hist := [], snap := [], fwd := []
+      whist := u.map fun key => (mrtHist key q, [])
+      wctl := []
+      aps := u.map fun key => (apsOf false key z, []) }
+  | k =>
+    let post := k != 3
+    { tid := tid, nth := nth, want := r.want, live := true, kind := if post then 4 else 3
+      ctl := [], hist := [], snap := [], fwd := [], aps := []
+      whist := u.map fun key => if post then ([], watchHist true key q r.e0) else (watchHist false key q r.e0, [])
+      wctl := peers.map fun p => watchCtl p q r.e0 }
 
 def enumFrom' {α} : Nat → List α → List (Nat × α)
   | _, [] => []
